@@ -439,6 +439,52 @@ fn search_c11(budget: usize) {
     println!("{{\"status\":\"not-found\",\"tried\":{}}}", tried);
 }
 
+fn open_fds() -> Vec<i32> {
+    let mut v: Vec<i32> = std::fs::read_dir("/proc/self/fd").map(|d| d.filter_map(|e| e.ok().and_then(|e| e.file_name().to_str().and_then(|s| s.parse().ok()))).collect()).unwrap_or_default();
+    v.sort();
+    v
+}
+fn search_c12_bulk(dir: &str) {
+    // "0..253 descriptors" in ONE read, delivered once, in order; and nothing left open once request and connection are dropped
+    use vmm_sys_util::sock_ctrl_msg::ScmSocket;
+    use std::io::{Seek, SeekFrom};
+    for n in [1usize, 16, 17, 40, 100, 253] {
+        let before = open_fds();
+        {
+            let (mut c, tx) = new_conn(None);
+            let mut files = vec![];
+            for i in 0..n {
+                let path = format!("{}/b{}", dir, i);
+                let mut f = std::fs::OpenOptions::new().create(true).read(true).write(true).truncate(true).open(&path).unwrap();
+                write!(f, "{}", i).unwrap();
+                f.seek(SeekFrom::Start(0)).unwrap();
+                files.push(f);
+            }
+            let fds: Vec<i32> = files.iter().map(|f| f.as_raw_fd()).collect();
+            let req = b"GET /bulk HTTP/1.1\r\n\r\n";
+            if tx.send_with_fds(&[&req[..]], &fds).is_err() { continue; }
+            drop(files);
+            let r = c.try_read();
+            let mut ids = vec![];
+            let mut delivered = 0;
+            while let Some(rq) = c.pop_parsed_request() {
+                delivered += 1;
+                for mut f in rq.files { let mut t = String::new(); let _ = f.seek(SeekFrom::Start(0)); let _ = f.read_to_string(&mut t); ids.push(t.parse::<usize>().unwrap_or(usize::MAX)); }
+            }
+            let want: Vec<usize> = (0..n).collect();
+            if r.is_err() || delivered != 1 || ids != want {
+                let _ = std::fs::remove_dir_all(dir);
+                found("C12", format!("one read carrying a complete GET and {} descriptors", n), format!("try_read = {:?}; {} requests; descriptors {:?}", r.map_err(|e| err_kind(&e)), delivered, &ids[..ids.len().min(20)]), format!("one request owning descriptors 0..{} in order", n));
+            }
+        }
+        let after = open_fds();
+        if after.len() > before.len() {
+            let _ = std::fs::remove_dir_all(dir);
+            found("C12", format!("{} descriptors delivered with a request; request, connection and peer dropped", n), format!("{} descriptors still open that were not open before (e.g. {:?})", after.len() - before.len(), after.iter().filter(|x| !before.contains(x)).take(5).collect::<Vec<_>>()), "every received descriptor closed".into());
+        }
+    }
+}
+
 fn search_c12(budget: usize) {
     use vmm_sys_util::sock_ctrl_msg::ScmSocket;
     use std::io::{Seek, SeekFrom};
@@ -446,6 +492,7 @@ fn search_c12(budget: usize) {
     let mut tried = 0;
     let dir = format!("/tmp/wit_c12_{}", std::process::id());
     let _ = std::fs::create_dir_all(&dir);
+    search_c12_bulk(&dir);
     while tried < budget {
         // k requests, pieces with descriptors attached; expected: every descriptor goes, in arrival order, to the
         // first request completing at or after its read.  Descriptors are told apart by the number written in the file.
@@ -776,6 +823,21 @@ fn search_c05(budget: usize) {
         let cl: Option<usize> = head.split("\r\n").find_map(|l| l.strip_prefix("Content-Length: ").and_then(|x| x.parse().ok()));
         let want_cl = if explicit_cl { Some(body.as_ref().unwrap().len()) } else if ci == 0 || ci == 2 { None } else { Some(0) };
         if cl != want_cl { found("C05", desc, format!("Content-Length {:?}", cl), format!("{:?}", want_cl)); }
+        // header lines, in order: Server, Connection: keep-alive, [Allow], [Deprecation], then ONLY when a length is present
+        // Content-Type, Content-Length, [Accept-Encoding]
+        let got_lines: Vec<&str> = head.split("\r\n").skip(1).collect();
+        let mut want_lines: Vec<String> = vec![format!("Server: {}", if calls.contains(&"set_server") { "srv" } else { "Firecracker API" }), "Connection: keep-alive".into()];
+        let n_allow = calls.iter().filter(|c| **c == "allow_method").count();
+        if n_allow > 0 { want_lines.push(format!("Allow: {}", vec!["PUT"; n_allow].join(", "))); }
+        if calls.contains(&"set_deprecation") { want_lines.push("Deprecation: true".into()); }
+        if let Some(n) = want_cl {
+            want_lines.push(format!("Content-Type: {}", if calls.contains(&"set_content_type") { "text/plain" } else { "application/json" }));
+            want_lines.push(format!("Content-Length: {}", n));
+            if calls.contains(&"set_encoding") { want_lines.push("Accept-Encoding: identity".into()); }
+        }
+        if got_lines.iter().map(|l| l.to_string()).collect::<Vec<_>>() != want_lines {
+            found("C05", desc, format!("header lines {:?}", got_lines), format!("{:?}", want_lines));
+        }
         let rest = &out[head_end + 4..];
         if rest != body.clone().unwrap_or_default().as_slice() { found("C05", desc, format!("body {}", esc(rest)), format!("{:?}", body.map(|b| esc(&b)))); }
     }
@@ -877,7 +939,7 @@ fn search_c14(budget: usize) {
     let mut rng = Rng(0x14c0ffee);
     let mut tried = 0usize;
     let probe = b"PUT /probe HTTP/1.1\r\nContent-Length: 2\r\n\r\nzz";
-    let extras: Vec<&[u8]> = vec![b"X-Note: first\nX-Other: second\r\n", b"X-A: 1\r\nX-A: 2\r\n", b"Accept: application/json\r\n", b"Transfer-Encoding: chunked\r\n", b"Content-Type: text/html\r\n", b"A:b\nContent-Length: 3\r\n"];
+    let extras: Vec<&[u8]> = vec![b"X-Note: first\nX-Other: second\r\n", b"X-A: 1\r\nX-A: 2\r\n", b"Accept: application/json\r\n", b"Transfer-Encoding: chunked\r\n", b"Content-Type: text/html\r\n", b"A:b\nContent-Length: 3\r\n", b"X-No-Colon-Here\r\n", b"Expect: 103-checkpoint\r\n"];
     while tried < budget.max(3000) {
         let mut slice = gen_request(&mut rng, 1500);
         // sometimes splice an extra header line in front of the blank line, add or remove trailing bytes, or corrupt a byte
@@ -890,12 +952,13 @@ fn search_c14(budget: usize) {
         let lim_eq = Request::try_from(&slice, Some(slice.len())).is_ok();
         if lim_ok != one.is_ok() || lim_eq { found("C14", format!("Request::try_from({}, max_len)", esc(&slice)), format!("max=len+1: {}, max=len: {}", lim_ok, lim_eq), format!("max=len+1: {}, max=len: false", one.is_ok())); }
         let (got, err) = feed(&slice, probe);
-        let line_ok = slice.split(|&b| b == b'\n').all(|l| l.len() + 1 <= 1024);
+        // within the line limit: every CRLF-terminated line of the head (request line + header block) is <= 1024 bytes with its CRLF
+        let head_len = slice.windows(4).position(|w| w == b"\r\n\r\n").map(|p| p + 2).unwrap_or(slice.len());
+        let line_ok = { let mut ok = true; let mut st = 0usize; let h = &slice[..head_len]; let mut i = 0; while i + 1 < h.len() { if h[i] == b'\r' && h[i + 1] == b'\n' { if i + 2 - st > 1024 { ok = false; } st = i + 2; i += 2; } else { i += 1; } } ok && h.len() - st < 1024 };
         if let Ok(r) = &one {
             let f = full(r);
             // "within the line and payload limits": the specification parser reports no (limit) error before the first request
-            let within = { let rf = reference(&slice, 51200); !rf.delivered.is_empty() };
-            if line_ok && within && f.cl as usize <= 51200 && (got.is_empty() || got[0] != f) {
+            if line_ok && f.cl as usize <= 51200 && (got.is_empty() || got[0] != f) {
                 found("C14", format!("slice {}", esc(&slice)), format!("connection: first request {:?} error {:?}", got.get(0), err), format!("what Request::try_from accepted: {:?}", f));
             }
         } else {
@@ -1279,8 +1342,57 @@ fn round_trip(s: &mut Srv, prop: &str, what: &str, uri: &str) -> Result<(), Stri
     if !String::from_utf8_lossy(&w).contains(&format!("echo:{}", uri)) { return Err(format!("the client of {} received {}", uri, esc(&w))); }
     Ok(())
 }
+fn search_server_blocking() {
+    // C09: a client that never reads its (large) response must not make polling block or fail, and another client is still served.
+    // The history runs in a thread so that a requests() call that never returns is a finding, not a hang of the search.
+    let what = "client A asks for a response larger than the socket buffer and never reads it; the application answers; the server is polled; client B does a round trip";
+    let (txd, rxd) = std::sync::mpsc::channel::<Result<(), String>>();
+    std::thread::spawn(move || {
+        let mut s = Srv::new("C09h5");
+        let mut a = s.connect("C09", what);
+        let _ = a.write_all(b"GET /big HTTP/1.1\r\n\r\n");
+        s.pump("C09", what);
+        if let Some(i) = s.outstanding.iter().position(|r| r.request.uri().get_abs_path() == "/big") {
+            let r = s.outstanding.remove(i);
+            let _ = s.server.respond(r.process(|_| { let mut x = Response::new(Version::Http11, StatusCode::OK); x.set_body(Body::new(vec![b'x'; 4 << 20])); x }));
+        } else { let _ = txd.send(Ok(())); s.done(); return; }
+        s.pump("C09", what);
+        let r = round_trip(&mut s, "C09", what, "/witness-b");
+        s.done();
+        drop(a);
+        let _ = txd.send(r);
+    });
+    match rxd.recv_timeout(std::time::Duration::from_secs(20)) {
+        Ok(Ok(())) => {}
+        Ok(Err(e)) => found("C09", what.into(), e, "client B is served".into()),
+        Err(_) => { let _ = std::fs::remove_file(format!("/tmp/wit_C09h5_{}.sock", std::process::id())); found("C09", what.into(), "HttpServer::requests() did not return within 20 s (blocked in a write)".into(), "polling keeps returning normally".into()) }
+    }
+}
+
 fn search_server_histories(prop: &str) {
+    if prop == "C09" { search_server_blocking(); }
     if prop == "C07" {
+        // H6: at full capacity a hung-up connection that is still owed a response keeps its slot (and its descriptor number);
+        //     the eleventh client is refused, and the late answer reaches nobody
+        {
+            let what = "ten clients connected; client 3 has /c3/r0 with the application and closes; an eleventh client connects; /c3/r0 is answered late";
+            let mut s = Srv::new("C07h6");
+            let mut cl = vec![];
+            for _ in 0..10 { cl.push(Some(s.connect(prop, what))); }
+            let _ = cl[3].as_mut().unwrap().write_all(b"GET /c3/r0 HTTP/1.1\r\n\r\n");
+            s.pump(prop, what);
+            if s.outstanding.len() == 1 {
+                cl[3] = None;
+                s.pump(prop, what);
+                let mut c10 = s.connect(prop, what);
+                s.answer("/c3/r0");
+                s.pump(prop, what);
+                let mut w = vec![]; peek_some(&mut c10, &mut w);
+                if String::from_utf8_lossy(&w).contains("echo:/c3/r0") { s.done(); found(prop, what.into(), format!("the eleventh client received {}", esc(&w)), "at most the 503 refusal: the answer to client 3 is dropped".into()); }
+                for c in cl.iter_mut().flatten() { let mut w = vec![]; peek_some(c, &mut w); if String::from_utf8_lossy(&w).contains("echo:/c3/r0") { s.done(); found(prop, what.into(), format!("another client received {}", esc(&w)), "nobody receives the late answer".into()); } }
+            }
+            s.done();
+        }
         // H1: a client with two requests in flight gets one answer, closes WITHOUT reading it (ECONNRESET/EPOLLERR on the
         //     server side) while the other request is still with the application; a new client connects (descriptor number
         //     reused); the late answer must not reach it
